@@ -1,6 +1,6 @@
 \* C16 view machine, quick tier. Constants: Big = FALSE (relation slice over 3 types, list/non-null
 \* wrappings up to depth 3, reduced argument/field alphabets); Schemas = the union of slices of
-\* MC_Introspect.tla. Measured: 1620 schemas (initial states), 3240 distinct states, depth 2, ~5-10 s
+\* MC_Introspect.tla. Measured: 1862 schemas (initial states; 242 of them SliceText), 3724 distinct states, depth 2, ~5-10 s
 \* with -workers 1 (EmitView prints one JSON line per schema). All six theorems hold.
 CONSTANTS
     Big = FALSE
